@@ -233,6 +233,12 @@ def run(p, report, tier):
                 "label is granted in that iteration (same test / same recorded value, not rebound in between), so what "
                 "the simulation accounts for is what update later commits", floor=6)
     report.analysed["accounting_sites"] = check_accounting_is_granting(p, report)
+    report.rule("R10.8", "strategies that simulate by mutating their own state inside query's per-candidate loop: every "
+                "such transition is applied inside update's per-candidate loop too (not in bulk afterwards)", floor=1)
+    report.analysed["direct_simulation_transitions"] = check_direct_simulation(p, report)
+    report.rule("R10.9", "the utilities a stream strategy returns are the ones its budget manager saw in "
+                "query_by_utility (same variable without rebinding, or its elements)", floor=4)
+    report.analysed["returned_utilities_sites"] = check_returned_utilities(p, report)
     report.rule("R10.4", "queried indices are built only by appending the enumerate counter at most once per "
                 "iteration, by np.where(mask)[0], or are the budget manager's own result", floor=13)
     report.rule("R10.5", "if the simulation draws from self.random_state_ under get_state/set_state, update advances "
@@ -595,6 +601,99 @@ def check_accounting_is_granting(p, report, rule="R10.7"):
                            f"({'; '.join(w for v, w in verdicts if not v)}): simulation and the committed update disagree "
                            "within a chunk")
     return n
+
+
+def check_direct_simulation(p, report, rule="R10.8"):
+    """Strategies that simulate inside query by mutating their own state in the per-candidate loop (and
+    restore it afterwards): every in-loop transition `self.a op= e` of query is applied, per candidate
+    and inside the loop, by update as well."""
+    n = 0
+    for ci in p.exported_classes("skactiveml.stream"):
+        q = p.find_method(ci, "query")
+        u = p.find_method(ci, "update")
+        if q is None or u is None or is_abstract(q) or is_abstract(u):
+            continue
+
+        def cand_loops(fn):
+            return [L for L in ast.walk(fn.node) if isinstance(L, ast.For) and "candidates" in names_in(L.iter)]
+
+        def direct_ops(L):
+            out = set()
+            for x in ast.walk(L):
+                if isinstance(x, ast.AugAssign) and _tname(x.target) and _tname(x.target).startswith("self."):
+                    out.add((_tname(x.target), type(x.op).__name__ + "=", norm_rhs(x.value, {_tname(x.target)})))
+                elif isinstance(x, ast.Assign) and len(x.targets) == 1 and _tname(x.targets[0]) and \
+                        _tname(x.targets[0]).startswith("self.") and _tname(x.targets[0]) in names_in(x.value):
+                    out.add((_tname(x.targets[0]), "=", norm_rhs(x.value, {_tname(x.targets[0])})))
+            return out
+        ql, ul = cand_loops(q), cand_loops(u)
+        if not ql:
+            continue
+        sim = set()
+        for L in ql:
+            sim |= direct_ops(L)
+        if not sim:
+            continue
+        com = set()
+        for L in ul:
+            com |= direct_ops(L)
+        for (attr, op, rhs) in sorted(sim):
+            ok = (attr, op, rhs) in com
+            n += 1
+            report.add(rule, f"{ci.name}.query/update", f"per-candidate transition `{attr} {op} {rhs}` mirrored inside update's loop",
+                       f"{u.file}:{u.node.lineno}", ok,
+                       detail="same transition inside the per-candidate loop of update" if ok else
+                       f"query advances {attr} once per candidate inside its loop, update does not do so inside its "
+                       "per-candidate loop (e.g. in bulk afterwards): what the loop body reads (time stamps) differs "
+                       "between simulation and commit for every chunk longer than one")
+    return n
+
+
+def check_returned_utilities(p, report, rule="R10.9"):
+    """The utilities a strategy returns (and the caller hands to update) are the utilities the budget
+    manager saw in query_by_utility: same variable, not rebound in between; element-wise calls use
+    elements of the returned array."""
+    n = 0
+    seen = set()
+    for ci in p.exported_classes("skactiveml.stream"):
+        q = p.find_method(ci, "query")
+        if q is None or is_abstract(q) or id(q.node) in seen:
+            continue
+        seen.add(id(q.node))
+        calls = [c for c in ast.walk(q.node) if isinstance(c, ast.Call) and isinstance(c.func, ast.Attribute)
+                 and c.func.attr == "query_by_utility" and c.args]
+        rets = [r.value.elts[1] for r in ast.walk(q.node) if isinstance(r, ast.Return) and isinstance(r.value, ast.Tuple)
+                and len(r.value.elts) == 2]
+        if not calls or not rets or not all(isinstance(r, ast.Name) for r in rets):
+            continue
+        rname = rets[0].id
+        for c in calls:
+            a = c.args[0]
+            ok = None
+            if isinstance(a, ast.Name):
+                rebinds = [x for x in ast.walk(q.node) if isinstance(x, (ast.Assign, ast.AugAssign)) and c.lineno < x.lineno
+                           and any(isinstance(t, ast.Name) and t.id == rname for t in (
+                               x.targets if isinstance(x, ast.Assign) else [x.target]))]
+                ok = a.id == rname and not rebinds
+            else:
+                # np.array([u]) with u an element of the returned array (loop over it), or a NaN filler
+                names = names_in(a) - {"np"}
+                loops = [L for L in ast.walk(q.node) if isinstance(L, ast.For) and rname in names_in(L.iter)
+                         and any(x is c for x in ast.walk(L))]
+                tnames = set()
+                for L in loops:
+                    tnames |= {x.id for x in ast.walk(L.target) if isinstance(x, ast.Name)}
+                ok = (not names) or bool(names & tnames) or c01_is_nan(a)
+            n += 1
+            report.add(rule, q.qual, f"budget manager sees the returned utilities: {site_id(c, 60)}", f"{q.file}:{c.lineno}", ok,
+                       detail=f"argument is (an element of) `{rname}`" if ok else
+                       f"query_by_utility is given `{ast.unparse(a)}` but `{rname}` is returned: update will commit other "
+                       "utilities than the simulation used, so the history depends on the chunk borders")
+    return n
+
+
+def c01_is_nan(a):
+    return "nan" in ast.unparse(a)
 
 
 def wellformed_indices(fnode, name):
